@@ -140,6 +140,32 @@ func (e *env) feed(o feedOpts, f inputFn) {
 		})
 	}
 
+	// 4b. every fcall site at the depth limit: all opener contexts (first/later member of an
+	// array/object, either opener kind) x depths 9999..10001 x bottoms, fully closed
+	if o.nestQ > 0 && e.enumStage("depthsites", "7 array/object mixtures x sibling/no sibling x depths {9999,10000,10001} x 6 bottoms x {closed, unclosed}", true) {
+		idx := 0
+	sites:
+		for _, pat := range gen.NestPatterns {
+			for _, sib := range []bool{false, true} {
+				for _, d := range []int{9999, 10000, 10001} {
+					for _, bottom := range []string{"", "1", "[]", "{}", `{"a":[]}`, `[1,{}]`} {
+						for _, cl := range []int{d, 0} {
+							idx++
+							if !cfg.Mine(idx) {
+								continue
+							}
+							doc := gen.NestSpec{Depth: d, Pattern: pat, Close: cl, Bottom: bottom, Sibling: sib}.Build()
+							if err := call("depthsite", doc); err != nil {
+								report("depthsite", doc, err)
+								break sites
+							}
+						}
+					}
+				}
+			}
+		}
+	}
+
 	// 5. mutation chains
 	if n := cfg.N(o.mutQ, o.mutT); o.mutQ > 0 {
 		e.rapidStage("mutate", "rapid", n, func(rt *rapid.T) {
